@@ -139,6 +139,11 @@ def run_property(pid, tier, seed, repo='/repo', only_deductive=False, timeout=No
     bounded_only = []
     fun_info = []
     entries = {}
+    for ln in P.get('lemmas', []):
+        for mod in cmods:
+            for lem in getattr(mod, 'LEMMAS', []):
+                if lem['name'] == ln:
+                    fun_info.append(verify.verify_lemma(ctx, lem))
     for f in P['functions']:
         relpath, qual = f['key'].split('::')
         try:
